@@ -1105,6 +1105,16 @@ def u_flatten(ctx):
     # the empty Dict has flat_size 0 and one member
     m = {"k": "dict", "items": []}
     run_flatten(ctx, m, build(m), [OrderedDict()], "empty-dict")
+    # Boxes with a zero-length axis: no numbers at all, alone and next to a non-empty neighbour
+    for shp in ((0,), (3, 0)):
+        mb = {"k": "box", "low": np.zeros(shp, np.float32), "high": np.ones(shp, np.float32)}
+        try:
+            run_flatten(ctx, mb, build(mb), [np.zeros(shp, np.float32)], "empty-box")
+            mt = {"k": "tuple", "items": [mb, {"k": "discrete", "n": 3}]}
+            run_flatten(ctx, mt, build(mt), [(np.zeros(shp, np.float32), np.asarray(v, np.int32)) for v in (0, 1, 2)], "empty-box-in-tuple")
+            ctx.monitor("empty_box_flatten_cases")
+        except Exception as e:  # noqa: BLE001
+            ctx.violation("flatten-raises", {"space": f"Box{shp}", "error": f"{type(e).__name__}: {e}"[:300]})
     ctx.require("flatten_outputs_checked", 500)
     ctx.require("flatten_pairs_compared", 2000)
     ctx.require("flatten_near_pairs", 100)
